@@ -65,6 +65,10 @@ fn random_doc(r: &mut Rng, max_len: usize, crlf: bool) -> String {
             s.push_str(*r.pick(alpha));
         }
     }
+    // a leading byte-order mark now and then: one more character as far as positions go
+    if r.chance(1, 8) {
+        s.insert(0, '\u{feff}');
+    }
     s
 }
 
